@@ -51,6 +51,20 @@ DRIVERS["P6"] = dict(
     script=[[("send", "A", "P", P("P", 0, 100)), ("send", "A", "R", P("R", 0, 100)),
              ("send", "A", "P", P("P", 1, 1300)), ("send", "A", "R", P("R", 1, 100))]],
 )
+# P7 an older reliable chunk is outstanding in front of a partially reliable message larger than cwnd
+DRIVERS["P7"] = dict(
+    setup="settled",
+    channels=[C.chan("R", negotiated=0), C.chan("P", negotiated=1, maxRetransmits=0)],
+    script=[[("send", "A", "R", P("R", 0, 100)), ("send", "A", "P", P("P", 0, 7000)),
+             ("send", "A", "R", P("R", 1, 100))]],
+)
+# P8 unordered lifetime-limited channel with a message larger than cwnd, both directions busy
+DRIVERS["P8"] = dict(
+    setup="settled",
+    channels=[C.chan("R", negotiated=0), C.chan("T", negotiated=1, maxPacketLifeTime=50, ordered=False)],
+    script=[[("send", "A", "T", P("T", 0, 5000)), ("send", "B", "R", P("Rb", 0, 100)),
+             ("send", "A", "R", P("R", 0, 1300)), ("send", "A", "T", P("T", 1, 100))]],
+)
 
 
 def terminal_extra(world):
@@ -73,8 +87,8 @@ def scenario(name):
     return C.make_factory(DRIVERS[name]), oracle, C.default_signature
 
 
-QUICK = [("P1", 2), ("P2", 2), ("P3", 2), ("P4", 2), ("P5", 2), ("P6", 2)]
-THOROUGH = [("P1", 3), ("P2", 3), ("P3", 3), ("P4", 3), ("P5", 3), ("P6", 3)]
+QUICK = [("P1", 2), ("P2", 2), ("P3", 2), ("P4", 2), ("P5", 2), ("P6", 2), ("P7", 2), ("P8", 2)]
+THOROUGH = [("P1", 3), ("P2", 3), ("P3", 3), ("P4", 3), ("P5", 3), ("P6", 3), ("P7", 3), ("P8", 3)]
 
 
 def run(tier, seed):
